@@ -1,10 +1,23 @@
-(* Proofs/MetricsP2.v — property C13, the parts that rested on testing only:
-   1. group_by: the buckets of _grouped_agg are exactly "one bucket per distinct key, in ascending key
-      order, holding the values of the windows with that key in window order"; hence bucket totals add
-      up to the per-period rows and to the full-range total               grouped_agg_char, grouped_total_adds_up
-   2. the stepping loops never run out of fuel (any zone table)           win_loop_fuel_enough
-   3. week / month / year windows begin on a local Monday / 1st / 1 January 00:00 and end when the
-      clock reaches the next such boundary                                windows_calendar_aligned *)
+(* Proofs/MetricsP2.v — property C13, the parts that rested on testing only.
+   1. group_by.  _grouped_agg returns one row per distinct group key of the period windows, keys
+      strictly ascending, the row of key k being the combiner applied to the values of the windows with
+      key k in window order; every per-window value is used exactly once          grouped_agg_char
+      Hence the buckets of total_duration / count_intervals are the per-key sums of the per-period
+      rows and add up to the same total        grouped_total_adds_up, grouped_count_adds_up
+      a coverage_ratio bucket is (sum of covered seconds, sum of window seconds)  grouped_ratio_char
+      and for a stored timeline under the hypotheses of C13_total_duration_rows the buckets pass the
+      oracle's checks (Spec buckets_int_ok, additive_ok, buckets_rat_ok) and add up to the measure of
+      the range                               grouped_stored_correct, count_stored_correct
+   2. fuel.  The stepping loops never run out of fuel, for every zone table, range and period; no
+      public function returns RFuel            win_loop_fuel_enough, metrics_never_out_of_fuel
+   3. alignment.  Every window of the hour/day/week/month/year loops begins when the local clock
+      reaches its label, a period boundary in the sense of Spec is_boundary (Monday 00:00, the 1st
+      00:00, 1 January 00:00, ...), ends when the clock reaches the boundary exactly one period
+      length (plen: 7 days, dim days, diy days) later, and labels are consecutive
+                                              windows_calendar_aligned  (zone hypothesis only)
+      With the range-end hypotheses the windows pass the oracle's whole check     model_windows_ok
+      The extra hypothesis end_not_on_gap is needed: finding M4                   day_range_end_on_gap_refuted
+   4. rows without group_by against the oracle: total_rows_correct, ratio_rows_correct *)
 From CG Require Import Proofs.Defs Proofs.MetricsP Proofs.MetricsCivil Proofs.MetricsIso Spec.MetricsSpec.
 From CG Require Proofs.CivilP.
 Ltac Zify.zify_post_hook ::= Z.to_euclidean_division_equations.
@@ -195,7 +208,7 @@ End Buckets.
 (* ------------------------------------------------------------------------------------ *)
 (* 2. calendar: lengths of months and years, fields of the first of a month *)
 
-(* day number of the last day of February of year y + 1, minus 719468 + ... : the March-based year *)
+(* yd y + k is the day number of day k (from 0) of the March-based year y: 1 March y .. end of February y+1 *)
 Definition yd (y : Z) : Z :=
   let era := y / 400 in let yoe := y - era * 400 in
   era * 146097 + (yoe * 365 + yoe / 4 - yoe / 100) - 719468.
@@ -349,6 +362,7 @@ Proof.
   destruct (period_windows_dt z a b p) as [ws|] eqn:E; [exists ws; reflexivity|].
   exfalso. exact (win_loop_fuel_enough z a b p E).
 Qed.
+Print Assumptions period_windows_total.
 
 (* ------------------------------------------------------------------------------------ *)
 (* 4. _grouped_agg and _windowed_agg *)
@@ -851,6 +865,7 @@ Proof.
   apply andb_prop in H1 as [H1 _]. apply andb_prop in H1 as [H1 H4].
   apply andb_prop in H1 as [H1 H3]. apply andb_prop in H1 as [H1 H2]. repeat split; try assumption. lia.
 Qed.
+Print Assumptions windows_calendar_aligned_prop.
 
 (* the range end is not an instant at which the local clock jumps forward off or over a period boundary *)
 Definition end_not_on_gap (u : Z) (z : zone) (b : Z) : Prop :=
@@ -915,3 +930,254 @@ Proof.
     destruct w as [[L s] e]. destruct Hch as (-> & _). cbn [first_start]. lia.
 Qed.
 Print Assumptions model_windows_ok.
+
+(* ------------------------------------------------------------------------------------ *)
+(* 9. the hypotheses are satisfiable; the new one cannot be dropped (finding M4) *)
+
+(* transitions 2020-2025 (the tables of Props/C13.v, repeated here so that Props may import this file) *)
+Definition la_tab : zone := mkZone (-28800)
+  [(1583661600, -25200); (1604221200, -28800); (1615716000, -25200); (1636275600, -28800);
+   (1647165600, -25200); (1667725200, -28800); (1678615200, -25200); (1699174800, -28800);
+   (1710064800, -25200); (1730624400, -28800); (1741514400, -25200); (1762074000, -28800)].
+Definition havana_tab : zone := mkZone (-18000)
+  [(1583643600, -14400); (1604206800, -18000); (1615698000, -14400); (1636261200, -18000);
+   (1647147600, -14400); (1667710800, -18000); (1678597200, -14400); (1699160400, -18000);
+   (1710046800, -14400); (1730610000, -18000); (1741496400, -14400); (1762059600, -18000)].
+
+(* two weeks in Los Angeles around the 23-hour day 2024-03-10, daily windows grouped by weekday: all
+   hypotheses of grouped_stored_correct hold; the buckets add up to the measure of the range, 60000 s;
+   the Sunday bucket (key 6) is 10400 s of 86400 + 82800 s *)
+Example grouped_hypotheses_satisfiable :
+  let evs := [mkI (Some 1710000000) (Some 1710040000) (Rich 1); mkI (Some 1710010000) (Some 1710020000) (Rich 2);
+              mkI (Some 1710130000) None (Rich 3)] in
+  let s := BInt 1709000000 in let e := BInt 1710150000 in
+  let a := coerce_bound la_tab s in let b := coerce_bound la_tab e in
+  valid_group_by PDay (Some GDayOfWeek) = true /\
+  Forall wf_ivl evs /\ NEG_INF < a /\ a < b /\ b < POS_INF /\
+  zone_wf (unit_of_period PDay) la_tab = true /\
+  (utc_to_wall la_tab b mod unit_of_period PDay = 0 -> fold_of la_tab b = false) /\
+  (exists ws, period_windows_dt la_tab a b PDay = Some ws /\ Forall win_bounded ws) /\
+  total_duration la_tab (Stored evs) s e PDay (Some GDayOfWeek)
+    = RInts [(0, 9600); (1, 0); (2, 0); (3, 0); (4, 0); (5, 40000); (6, 10400)] /\
+  coverage_ratio la_tab (Stored evs) s e PDay (Some GDayOfWeek)
+    = RRats [(0, (9600, 259200)); (1, (0, 172800)); (2, (0, 172800)); (3, (0, 172800)); (4, (0, 172800));
+             (5, (40000, 172800)); (6, (10400, 169200))] /\
+  count_intervals la_tab (Stored evs) s e PDay (Some GDayOfWeek)
+    = RInts [(0, 1); (1, 0); (2, 0); (3, 0); (4, 0); (5, 2); (6, 1)] /\
+  measure evs a b = 60000.
+Proof.
+  cbv zeta. split; [reflexivity|]. split.
+  { repeat constructor; unfold wf_ivl, fstart, fend, NEG_INF, POS_INF; simpl; lia. }
+  split; [unfold NEG_INF; cbn; lia|]. split; [cbn; lia|]. split; [unfold POS_INF; cbn; lia|].
+  split; [vm_compute; reflexivity|].
+  split; [vm_compute; intros H; first [reflexivity | discriminate H]|].
+  split.
+  { eexists. split; [vm_compute; reflexivity|].
+    repeat constructor; unfold NEG_INF, POS_INF; lia. }
+  vm_compute. repeat split; reflexivity.
+Qed.
+
+(* month windows in Los Angeles, November 2023 to July 2024, across two transitions: the hypotheses
+   of model_windows_ok hold; the labels are the firsts of the months *)
+Example windows_hypotheses_satisfiable :
+  let a := 1700000000 in let b := 1720000000 in
+  zone_wf (unit_of_period PMonth) la_tab = true /\ a < b /\
+  (utc_to_wall la_tab b mod unit_of_period PMonth = 0 -> fold_of la_tab b = false) /\
+  end_not_on_gap (unit_of_period PMonth) la_tab b /\
+  exists ws, period_windows_dt la_tab a b PMonth = Some ws /\
+             map (fun w : win => civil_from_days (wlabel w / DAY)) ws =
+             [(2023, 11, 1); (2023, 12, 1); (2024, 1, 1); (2024, 2, 1); (2024, 3, 1); (2024, 4, 1);
+              (2024, 5, 1); (2024, 6, 1); (2024, 7, 1)] /\
+             map wspan ws = [30 * 86400 + 3600; 31 * 86400; 31 * 86400; 29 * 86400; 31 * 86400 - 3600;
+                             30 * 86400; 31 * 86400; 30 * 86400; 31 * 86400].
+Proof.
+  cbv zeta. split; [vm_compute; reflexivity|]. split; [lia|].
+  split; [vm_compute; intros H; first [reflexivity | discriminate H]|].
+  split; [apply no_jump_not_on_gap, Z.leb_le; vm_compute; reflexivity|].
+  eexists. split; [vm_compute; reflexivity|]. vm_compute. split; reflexivity.
+Qed.
+
+(* M4.  America/Havana sets its clocks forward at local midnight (2024-03-10 00:00 -> 01:00).  The zone
+   table is well formed for daily stepping and the range end b = date(2024,3,10) (the instant of the
+   transition) is no second showing, so all earlier hypotheses hold and the totals add up; but the
+   clock at b reads 01:00 > 00:00, so the loop test "current < end_dt" lets a window for 2024-03-10
+   through although it begins exactly at b: total_duration(t, date(2024,3,9), date(2024,3,10),
+   period="day", tz="America/Havana") has a second row (2024-03-10, 0), group_by a second bucket
+   (6, 0), coverage_ratio a row 0/82800; the oracle's windows_ok rejects the windows.  (With any zone
+   whose transitions are not at midnight the same call returns one row.) *)
+Theorem day_range_end_on_gap_refuted :
+  let s := BDate 2024 3 9 in let e := BDate 2024 3 10 in
+  let a := coerce_bound havana_tab s in let b := coerce_bound havana_tab e in
+  let evs := [mkI (Some 1709900000) (Some 1710040000) (Rich 1)] in
+  zone_wf (unit_of_period PDay) havana_tab = true /\ a < b /\ fold_of havana_tab b = false /\
+  utc_to_wall havana_tab (b - 1) = 19792 * 86400 - 1 /\ utc_to_wall havana_tab b = 19792 * 86400 + 3600 /\
+  ~ end_not_on_gap (unit_of_period PDay) havana_tab b /\
+  total_duration havana_tab (Stored evs) s e PDay None = RInts [(19791, 79600); (19792, 0)] /\
+  total_duration havana_tab (Stored evs) s e PDay (Some GDayOfWeek) = RInts [(5, 79600); (6, 0)] /\
+  coverage_ratio havana_tab (Stored evs) s e PDay None = RRats [(19791, (79600, 86400)); (19792, (0, 82800))] /\
+  measure evs a b = 79600 /\
+  exists ws, period_windows_dt havana_tab a b PDay = Some ws /\ windows_ok havana_tab PDay a b ws = false.
+Proof.
+  cbv zeta. split; [vm_compute; reflexivity|]. split; [vm_compute; reflexivity|].
+  split; [vm_compute; reflexivity|]. split; [vm_compute; reflexivity|]. split; [vm_compute; reflexivity|].
+  split.
+  { intros H. specialize (H (19792 * 86400) eq_refl eq_refl). vm_compute in H. apply H. reflexivity. }
+  split; [vm_compute; reflexivity|]. split; [vm_compute; reflexivity|]. split; [vm_compute; reflexivity|].
+  split; [vm_compute; reflexivity|].
+  eexists. split; [vm_compute; reflexivity|]. vm_compute. reflexivity.
+Qed.
+Print Assumptions day_range_end_on_gap_refuted.
+
+(* ------------------------------------------------------------------------------------ *)
+(* 10. total_duration(..., group_by=None) of a stored timeline against the oracle's checks *)
+
+Lemma zip_ok_map {X Y} (f : X -> Y -> bool) (h : X -> Y) l :
+  (forall x, In x l -> f x (h x) = true) -> zip_ok f l (map h l) = true.
+Proof.
+  induction l as [|x r IH]; intros H; [reflexivity|]. cbn [map zip_ok].
+  rewrite (H x (or_introl eq_refl)), IH; [reflexivity|]. intros y Hy. apply H. right; exact Hy.
+Qed.
+
+Theorem total_rows_correct z evs s e p :
+  let a := coerce_bound z s in let b := coerce_bound z e in
+  Forall wf_ivl evs -> NEG_INF < a -> a < b -> b < POS_INF ->
+  zone_wf (unit_of_period p) z = true ->
+  (utc_to_wall z b mod unit_of_period p = 0 -> fold_of z b = false) ->
+  exists ws rows,
+    period_windows_dt z a b p = Some ws /\
+    total_duration z (Stored evs) s e p None = RInts rows /\
+    (Forall win_bounded ws ->
+       rows_int_ok p (spec_total evs a b) ws rows = true /\ additive_ok evs a b rows = true) /\
+    (end_not_on_gap (unit_of_period p) z b -> windows_ok z p a b ws = true).
+Proof.
+  intros a b Hwf A1 A2 A3 Hz Hend. subst a b.
+  destruct (grouped_agg_char z (Stored evs) s e p GHourOfDay total_duration_ zsum)
+    as (ws & _ & Hws & _ & _ & _ & _ & _ & Hw).
+  cbv zeta in *. set (a := coerce_bound z s) in *. set (b := coerce_bound z e) in *.
+  exists ws. eexists. split; [exact Hws|]. split.
+  { unfold total_duration. rewrite valid_group_by_none. cbn [negb]. fold a b. rewrite Hw. reflexivity. }
+  split.
+  - intros Hbd.
+    destruct (C13_total_duration_rows z evs a b p ws Hwf A1 A2 A3 Hz Hend Hws Hbd) as [Ev Esum].
+    split.
+    + unfold rows_int_ok. apply zip_ok_map. intros w Hw'. cbn [fst snd].
+      rewrite label_of_spec, Z.eqb_refl. cbn [andb]. apply Z.eqb_eq.
+      revert w Hw'. apply ext_in_map. exact Ev.
+    + unfold additive_ok. rewrite map_map. cbn [snd]. replace (a <? b) with true by lia.
+      apply Z.eqb_eq. rewrite <- Esum. reflexivity.
+  - intros Hgap. apply (model_windows_ok z a b p ws Hz A2 Hend Hgap Hws).
+Qed.
+Print Assumptions total_rows_correct.
+
+From CG Require Import Proofs.Stored Proofs.Clip Proofs.RefSpec.
+(* ------------------------------------------------------------------------------------ *)
+(* 11. count_intervals through _windowed_agg / _grouped_agg: the per-window count on the
+       materialised slice tl[A:B] is the number of events with an instant inside the period clipped
+       to the range (Spec spec_count) *)
+
+Lemma hits_clip_length A B s e : forall l,
+  length (filter (hits s e) (flat_map (clipW (Some A) (Some B)) l)) =
+  length (filter (hits (Z.max A s) (Z.min B e)) l).
+Proof.
+  induction l as [|x r IH]; [reflexivity|]. cbn [flat_map filter]. rewrite filter_app, app_length, IH.
+  destruct (clipW (Some A) (Some B) x) as [|g l'] eqn:Ec.
+  - unfold clipW in Ec. cbv zeta in Ec. cbn [bnd_lo bnd_hi] in Ec.
+    destruct (Z.max (fstart x) A <? Z.min (fend x) B) eqn:C; [discriminate|].
+    replace (hits (Z.max A s) (Z.min B e) x) with false by (unfold hits; lia). reflexivity.
+  - assert (Hin : In g (clipW (Some A) (Some B) x)) by (rewrite Ec; left; reflexivity).
+    apply clipW_shape in Hin as (_ & F1 & F2 & _). cbn [bnd_lo bnd_hi] in F1, F2.
+    assert (l' = []).
+    { unfold clipW in Ec. cbv zeta in Ec. destruct (_ <? _) in Ec; [|discriminate]. inversion Ec. reflexivity. }
+    subst l'. cbn [filter].
+    assert (E : hits s e g = hits (Z.max A s) (Z.min B e) x) by (unfold hits; rewrite F1, F2; lia).
+    rewrite E. destruct (hits (Z.max A s) (Z.min B e) x); reflexivity.
+Qed.
+
+Theorem count_is_hits_cached evs A B s e :
+  A <= B -> s <= e ->
+  count_ (cached_timeline (Stored evs) A B) s e =
+  Z.of_nat (length (filter (hits (Z.max A s) (Z.min B e)) evs)).
+Proof.
+  intros HAB Hse. unfold cached_timeline. rewrite count_is_hits by exact Hse. f_equal.
+  rewrite tslice_stored by exact HAB.
+  rewrite (clip_sweep_masks false _ (Some A) (Some B)) by apply fetch_static_sorted_start.
+  rewrite hits_clip_length.
+  rewrite (proj1 (fetch_static_spec _ (Some A) (Some B) (sl_build_sorted evs))).
+  rewrite filter_filter.
+  rewrite (filter_length_perm _ _ _ (sl_build_perm evs)).
+  f_equal. apply filter_ext. intros i. unfold hits, in_range. lia.
+Qed.
+Print Assumptions count_is_hits_cached.
+
+Theorem count_stored_correct z evs s e p g :
+  valid_group_by p (Some g) = true ->
+  let a := coerce_bound z s in let b := coerce_bound z e in
+  a < b -> zone_wf (unit_of_period p) z = true ->
+  (utc_to_wall z b mod unit_of_period p = 0 -> fold_of z b = false) ->
+  exists ws out rows,
+    period_windows_dt z a b p = Some ws /\
+    count_intervals z (Stored evs) s e p (Some g) = RInts out /\
+    count_intervals z (Stored evs) s e p None = RInts rows /\
+    buckets_int_ok g (spec_count evs a b) ws out = true /\
+    rows_int_ok p (spec_count evs a b) ws rows = true.
+Proof.
+  intros Hv a b Hab Hz Hend. subst a b.
+  destruct (grouped_count_adds_up z (Stored evs) s e p g Hv) as (ws & out & Hws & HG & HN & Hb & _).
+  cbv zeta in *. set (a := coerce_bound z s) in *. set (b := coerce_bound z e) in *.
+  exists ws, out. eexists. split; [exact Hws|]. split; [exact HG|]. split; [exact HN|].
+  destruct (windows_cover_range z a b p ws Hz Hab Hend Hws) as (s0 & Hch & _ & _).
+  pose proof (chain_spans ws s0 Hch) as Hsp. rewrite Forall_forall in Hsp.
+  assert (Ew : forall w, In w ws ->
+                 wval count_ (cached_timeline (Stored evs) a b) w = spec_count evs a b w).
+  { intros [[L s'] e'] Hw. specialize (Hsp _ Hw). cbn in Hsp. unfold wval, spec_count, wlo, whi.
+    apply count_is_hits_cached; lia. }
+  split.
+  - unfold buckets_int_ok in *. apply andb_prop in Hb as [H1 H2]. rewrite H1. cbn [andb].
+    rewrite <- H2. apply forallb_ext_all. intros o _.
+    rewrite (bucket_sum_ext g _ _ ws (fst o) Ew). reflexivity.
+  - unfold rows_int_ok. apply zip_ok_map. intros w Hw. cbn [fst snd].
+    rewrite label_of_spec, Z.eqb_refl, (Ew w Hw), Z.eqb_refl. reflexivity.
+Qed.
+Print Assumptions count_stored_correct.
+
+(* ------------------------------------------------------------------------------------ *)
+(* 12. coverage_ratio(..., group_by=None) of a stored timeline: each row is exactly the spec's ratio
+       (covered seconds of the period inside the range) / (length of the period), in [0,1] *)
+
+Lemma rat_close_self n d : 0 <= n -> 0 < d -> rat_close n d n d = true.
+Proof.
+  intros Hn Hd. unfold rat_close. assert (0 <= n * d) by (apply Z.mul_nonneg_nonneg; lia).
+  replace (n * d - n * d) with 0 by lia. cbn [Z.abs Z.mul]. lia.
+Qed.
+
+Theorem ratio_rows_correct z evs s e p :
+  let a := coerce_bound z s in let b := coerce_bound z e in
+  Forall wf_ivl evs -> NEG_INF < a -> a < b -> b < POS_INF ->
+  zone_wf (unit_of_period p) z = true ->
+  (utc_to_wall z b mod unit_of_period p = 0 -> fold_of z b = false) ->
+  exists ws rows,
+    period_windows_dt z a b p = Some ws /\
+    coverage_ratio z (Stored evs) s e p None = RRats rows /\
+    (Forall win_bounded ws ->
+       rows = map (fun w => (spec_label p (wlabel w), ratio_of evs a b w)) ws /\
+       rows_rat_ok p evs a b ws rows = true).
+Proof.
+  intros a b Hwf A1 A2 A3 Hz Hend. subst a b.
+  destruct (grouped_agg_char z (Stored evs) s e p GHourOfDay ratio_win combine_ratios)
+    as (ws & _ & Hws & _ & _ & _ & _ & _ & Hw).
+  cbv zeta in *. set (a := coerce_bound z s) in *. set (b := coerce_bound z e) in *.
+  exists ws. eexists. split; [exact Hws|]. split.
+  { unfold coverage_ratio. rewrite valid_group_by_none. cbn [negb]. fold a b. rewrite Hw. reflexivity. }
+  intros Hbd.
+  destruct (C13_total_duration_rows z evs a b p ws Hwf A1 A2 A3 Hz Hend Hws Hbd) as [Ev _].
+  assert (E : map (fun w => (label_of p (wlabel w), wval ratio_win (cached_timeline (Stored evs) a b) w)) ws
+              = map (fun w => (spec_label p (wlabel w), ratio_of evs a b w)) ws).
+  { apply map_ext_in. intros w Hin. rewrite label_of_spec. f_equal.
+    pose proof (ext_in_map Ev w Hin) as Et. destruct w as [[L s'] e']. cbv beta iota in Et.
+    unfold wval, ratio_win, ratio_of, wspan. rewrite Et. reflexivity. }
+  split; [exact E|]. rewrite E. unfold rows_rat_ok. apply zip_ok_map. intros w _. cbn [fst snd]. cbv zeta.
+  rewrite Z.eqb_refl. cbn [andb].
+  pose proof (ratio_in_unit evs a b w ltac:(lia)) as U. rewrite U. cbn [andb].
+  unfold rat_in_unit in U. rewrite rat_close_self by lia. lia.
+Qed.
+Print Assumptions ratio_rows_correct.
